@@ -22,11 +22,11 @@
 (*                                                                         *)
 (* Far tails ("all u in [0,1]"): besides the grid the quantifier is sampled  *)
 (* on a ladder  u = 2^-k  (side "lo") and  u = 1 - 2^-k  (side "hi"),        *)
-(* k \in TK, which reaches the smallest positive double (k = 1074) and the   *)
+(* k \in TK (and the same with base 10, k \in TD), which reaches the smallest positive double (k = 1074) and the   *)
 (* largest double below one (k = HiMax = 53); every ladder point is an       *)
 (* exactly representable number.  The normal quantile on the ladder is a     *)
-(* second uninterpreted table ZT (ZT[k] ~ ZTS * Phi^-1(2^-k), filled by the  *)
-(* harness by inverting math.erfc) of which the specification assumes that   *)
+(* second uninterpreted table ZT (ZT[k] ~ ZTS * Phi^-1(2^-k), written in the  *)
+(* cfg, re-computed by the harness) of which the specification assumes that   *)
 (* it decreases strictly in k, lies beyond the grid's outermost points and   *)
 (* agrees with Z where the ladder meets the grid; the upper side is its      *)
 (* mirror image (Phi^-1(1-u) = -Phi^-1(u)).                                  *)
@@ -43,7 +43,11 @@ CONSTANTS UN,       \* u grid: u = k / UN, k \in 0..UN
           ZS, Z,    \* Z[k] ~ ZS * Phi^-1(k/UN), k \in 1..UN-1
           TK,       \* tail ladder: u = 2^-k and u = 1 - 2^-k for k \in TK
           HiMax,    \* 1 - 2^-k differs from 1 in the number format of u only for k <= HiMax (53 for binary64)
-          ZTS, ZT,  \* ZT[k] ~ ZTS * Phi^-1(2^-k), k \in 1..Len(ZT)
+          TD,       \* decimal tail ladder: u = 10^-k and u = 1 - 10^-k for k \in TD
+          HiDecMax, \* 1 - 10^-k is used for k <= HiDecMax only (12: its double is 1 - 10^-k to 1e-4 of 10^-k)
+          ZTS, ZTCode, ZDCode, \* ladder tables ZT[k] ~ ZTS * Phi^-1(2^-k), ZD[k] ~ ZTS * Phi^-1(10^-k), given as the sets
+                    \* {k * ZTBase - Z.[k]} (cfg files have neither tuples nor negative numbers); the harness re-computes
+                    \* every entry before it trusts it
           Delivery  \* "by_prior": update_model hands prior.prior(x) to the model (the code); "by_mode": self-test
 
 LogKinds == {"LogUniform", "LogGaussian"}
@@ -80,26 +84,47 @@ Grid(p) == IF p.kind \in UniKinds THEN 0..UN ELSE 1..(UN - 1)     \* the normal 
 ToModel(p, x) == [sp |-> IF SpaceOf(p.kind) = "log" THEN "pow10" ELSE "id", x |-> x]
 
 \* --------------------------------------------------------------- far tails
+\* a ladder point is [side, base, k]:  u = base^-k (side "lo")  or  u = 1 - base^-k (side "hi"),  base 2 or 10.
+\* The binary points are doubles themselves (2u - 1 and 1 - u are exact there); the decimal points 10^-k are what
+\* people write, they have a full mantissa and are used as the nearest double.
+ZTBase == 10000
+TableOf(code) == [k \in {c \div ZTBase : c \in code} |-> -((CHOOSE c \in code : c \div ZTBase = k) % ZTBase)]
+ZT == TableOf(ZTCode)                                            \* ZT[k] ~ ZTS * Phi^-1(2^-k)
+ZD == TableOf(ZDCode)                                            \* ZD[k] ~ ZTS * Phi^-1(10^-k)
 UNLog == CHOOSE g \in 0..30 : Pow(2, g) = UN                      \* the grid is dyadic: 1/UN = 2^-UNLog
-TLo == SetToSortSeq(TK, LAMBDA x, y : x > y)                      \* u = 2^-k, smallest u first
-THi == SetToSortSeq({k \in TK : k <= HiMax}, LAMBDA x, y : x < y)  \* u = 1 - 2^-k, increasing
-\* the whole ladder in increasing order of u (all of the lower side lies below 1/UN, all of the upper above 1 - 1/UN)
-TailPts == [i \in 1..(Len(TLo) + Len(THi)) |->
-              IF i <= Len(TLo) THEN [side |-> "lo", k |-> TLo[i]] ELSE [side |-> "hi", k |-> THi[i - Len(TLo)]]]
-IsTailPt(pt) == pt.k \in TK /\ (pt.side = "lo" \/ (pt.side = "hi" /\ pt.k <= HiMax))
-\* exact order of two ladder points
+TailSet == {[side |-> "lo", base |-> 2, k |-> k] : k \in TK} \cup {[side |-> "hi", base |-> 2, k |-> k] : k \in {j \in TK : j <= HiMax}}
+           \cup {[side |-> "lo", base |-> 10, k |-> k] : k \in TD} \cup {[side |-> "hi", base |-> 10, k |-> k] : k \in {j \in TD : j <= HiDecMax}}
+IsTailPt(pt) == pt \in TailSet
+\* exact order of the magnitudes base^k, decided with 3.3219 < log2(10) < 3.3220 (the harness checks 2^33219 < 10^10000 < 2^33220);
+\* MagDecided says that these bounds settle every comparison the ladder needs
+L10Lo == 33219
+L10Hi == 33220
+L10Den == 10000
+MagLt(x, y) == IF x.base = y.base THEN x.k < y.k
+               ELSE IF x.base = 2 THEN x.k * L10Den <= y.k * L10Lo       \* k_x < k_y log2(10)
+               ELSE x.k * L10Hi <= y.k * L10Den                           \* k_x log2(10) < k_y
+MagDecided(x, y) == x.base = y.base \/ MagLt(x, y) \/ MagLt(y, x)
 PtLt(x, y) == \/ x.side = "lo" /\ y.side = "hi"
-              \/ x.side = "lo" /\ y.side = "lo" /\ x.k > y.k
-              \/ x.side = "hi" /\ y.side = "hi" /\ x.k < y.k
-TailZ(pt) == IF pt.side = "lo" THEN ZT[pt.k] ELSE -ZT[pt.k]
+              \/ x.side = "lo" /\ y.side = "lo" /\ MagLt(y, x)
+              \/ x.side = "hi" /\ y.side = "hi" /\ MagLt(x, y)
+\* the whole ladder in increasing order of u (all of the lower side lies below 1/UN, all of the upper above 1 - 1/UN)
+TailPts == SetToSortSeq(TailSet, PtLt)
+NLo == Cardinality({pt \in TailSet : pt.side = "lo"})
+TailZ(pt) == LET z == IF pt.base = 2 THEN ZT[pt.k] ELSE ZD[pt.k] IN IF pt.side = "lo" THEN z ELSE -z
 \* gaussian kinds: mean + std * table, a rational; uniform kinds: the linear form  a + w * u(pt)  (2^-1074 is no
 \* 32-bit rational: the form is exported and evaluated exactly at the boundary)
 TailSample(p, pt) == IF p.kind \in UniKinds THEN [a |-> p.a, w |-> RSub(p.b, p.a)]
                      ELSE RAdd(p.a, RMul(p.b, R(TailZ(pt), ZTS)))
 TZAssumption ==
-    /\ \A k \in TK : k > UNLog /\ k <= Len(ZT)
-    /\ \A k, j \in TK : k < j => ZT[j] < ZT[k]
-    /\ \A k \in TK : ZT[k] * ZS < Z[1] * ZTS                         \* beyond the outermost grid point
+    /\ \A code \in {ZTCode, ZDCode} : \A c, d \in code : (c \div ZTBase = d \div ZTBase) => c = d
+    /\ \A k \in TK \cup 1..UNLog : k \in DOMAIN ZT
+    /\ \A k \in TD : k \in DOMAIN ZD
+    /\ \A k \in TK : k > UNLog
+    /\ \A k \in TD : Pow(10, IF k < 9 THEN k ELSE 9) > UN             \* 10^-k < 1/UN
+    /\ \A x, y \in TailSet : MagDecided(x, y)
+    \* the table decreases strictly along the lower side of the ladder and lies beyond the outermost grid point
+    /\ \A x, y \in TailSet : PtLt(x, y) => TailZ(x) < TailZ(y)
+    /\ \A x \in TailSet : x.side = "lo" => TailZ(x) * ZS < Z[1] * ZTS
     /\ \A g \in 1..UNLog : 2 * Abs((Z[UN \div Pow(2, g)] * ZTS) - (ZT[g] * ZS)) <= ZTS + ZS   \* the tables agree on 2^-g = (UN/2^g)/UN
 
 \* ---------------------------------------------------------------- delivery
@@ -147,13 +172,15 @@ InverseCDF(p) == IF p.kind \in UniKinds
 TailMonotone(p) ==
     IF p.kind \in UniKinds THEN RLt(p.a, p.b)          \* a + w u increases with u iff w > 0 (the ladder is ordered exactly by PtLt)
     ELSE /\ \A i \in 1..(Len(TailPts) - 1) : RLt(TailSample(p, TailPts[i]), TailSample(p, TailPts[i + 1]))
-         /\ \A i \in 1..Len(TailPts) :
-               IF TailPts[i].side = "lo" THEN RLt(TailSample(p, TailPts[i]), Sample(p, 1))
-               ELSE RLt(Sample(p, UN - 1), TailSample(p, TailPts[i]))
-TailOrdered == \A i, j \in 1..Len(TailPts) : i < j <=> PtLt(TailPts[i], TailPts[j])
+         \* the ladder continues the grid on both sides
+         /\ RLt(TailSample(p, TailPts[NLo]), Sample(p, 1))
+         /\ RLt(Sample(p, UN - 1), TailSample(p, TailPts[NLo + 1]))
+TailOrdered == /\ \A i, j \in 1..Len(TailPts) : i < j <=> PtLt(TailPts[i], TailPts[j])
+               /\ Len(TailPts) = Cardinality(TailSet)
+               /\ \A i \in 1..Len(TailPts) : (TailPts[i].side = "lo") = (i <= NLo)
 TailSymmetric(p) == p.kind \notin UniKinds =>
-    \A k \in TK : k <= HiMax =>
-        RSub(TailSample(p, [side |-> "lo", k |-> k]), p.a) = RNeg(RSub(TailSample(p, [side |-> "hi", k |-> k]), p.a))
+    \A x \in TailSet : x.side = "hi" =>
+        RSub(TailSample(p, [x EXCEPT !.side = "lo"]), p.a) = RNeg(RSub(TailSample(p, x), p.a))
 LinArgsEquivalent(c) == Build(c) = Build(LogForm(c))
 TextEqualsDirect(c) == /\ \A n \in Spellings[c.cls] : FromText(Text(c, n)) = Build(c)
                        /\ FromText(Text(c, "Foo")) = "error"
